@@ -2,11 +2,15 @@
 //! (C16), Track (C12), StateTree (C17, C18), MerkleCommit (C19), TxTracker unit level (C07).
 #![allow(clippy::all)]
 mod locks;
+mod store;
+mod tree;
 
 fn main() {
     let (module, mode, args) = vh::start();
     match module.as_str() {
         "locks" => locks::run(&mode, &args),
+        "store" => store::run(&mode, &args),
+        "tree" => tree::run(&mode, &args),
         m => vh::unknown(m),
     }
 }
